@@ -706,7 +706,7 @@ theorem drel_setReturn {g : Globals} {R : Ty} {s : St} {ss : SpecSt} (hr : DRel 
 
 theorem den_nestedReturn {g : Globals} {R : Ty} {rg : RGlobals} (hg : GlobRel g rg) (hn : GNames g) (e : Expr)
     (s : St) (ss : SpecSt) (hr : DRel g R s ss) (he : (nestedReturn g e s).1.errors = s.errors) :
-    DRel g R (nestedReturn g e s).1 (specJret false e ss) := by
+    DRel g R (nestedReturn g e s).1 (specJret false rg e ss) := by
   unfold nestedReturn at he ⊢
   unfold specJret
   cases hm : exprM g e s with
@@ -721,13 +721,13 @@ theorem den_nestedReturn {g : Globals} {R : Ty} {rg : RGlobals} (hg : GlobRel g 
     | some r =>
       dsimp only at he ⊢
       have he1 : s1.errors = s.errors := he
-      obtain ⟨r', s2, hm2, _, _, t1, r1, hh⟩ := hrun he1
+      obtain ⟨r', s2, hm2, _, hcty, t1, r1, hh⟩ := hrun he1
       rw [hm] at hm2
       injection hm2 with hm2 hm3
       injection hm2 with hm2
       subst hm2; subst hm3
       refine drel_setReturn (drel_push_emit (drel_trans hr t1) _ _ ?_ ?_ rfl (fun q hq => hh.regs q hq) ?_ ?_)
-      · simp only [abstractStep, AbsSt.emit_out]; rw [r1]
+      · simp only [abstractStep, AbsSt.emit_out]; rw [r1, hcty]; rfl
       · simp [abstractStep, AbsSt.emit_decls]
       · exact ⟨fun _ _ h => (nomatch h), fun _ _ h => (nomatch h)⟩
       · intro bb hb
